@@ -110,7 +110,8 @@ def classify_preflight(mv, layer):
             cls = "fee"
         elif rc and rc[0] == "Gt" and P.const_of(rc[2]) == 0xFFFFFFFF and "saturating_add" in T.show(rc[1], maxdepth=8):
             cls = "range"
-        elif "is_none" in T.show(g["cond"], maxdepth=2) and g["fail_when"] is True:
+        elif ((P.call_name(g["cond"]) or "").endswith("::is_none") and g["fail_when"] is True) or ((P.call_name(g["cond"]) or "").endswith("::is_some") and g["fail_when"] is False):
+            # `if r.is_none() { bail }`  ==  `ensure!(r.is_some())`
             cls = "all-dummy"
         elif g["kind"] == "match" and "insert(" in T.show(g["cond"], maxdepth=3):
             cls = "unique"
@@ -219,8 +220,25 @@ def analyse(ck):
     c_ver = one_call(lambda t: t.get("name") == "verify" and (t.get("impl_adt") or "").endswith("VerifierCircuitData"), "verify", {"C14"})
     c_compat = one_call(lambda t: t.get("name") == "ensure_leaf_batch_compatible", "ensure_leaf_batch_compatible", {"C14"})
     c_shuf = one_call(lambda t: t.get("name") == "shuffle", "shuffle", {"C15"})
-    c_pre = one_call(lambda t: t.get("name") == "generate_dummy_nullifier_pre_images_for_slots", "dummy preimages", {"C15"})
     c_fill = one_call(lambda t: t.get("name") == "fill_private_batch_witness", "fill_private_batch_witness", {"C14", "C15"})
+    # the per-slot dummy preimages are whatever produces argument 3 of the witness fill: `(0..n).map(|_| sample()).collect()` written in
+    # place or in a private helper (expanded in place, so its name and module do not matter), or a call that stayed a call
+    c_pre, pre_term, pre_callee = None, None, None
+    if c_fill is not None:
+        fe0 = [e for e in cv.effects if e.bb == c_fill[0] and e.frame is cv.fr]
+        pre_term = P.norm(fe0[0].args[3]) if fe0 and len(fe0[0].args) > 3 else None
+        if isinstance(pre_term, tuple) and pre_term and pre_term[0] == "map":
+            smp = [e for e in cv.effects if e.raw.get("name") == "generate_random_nullifier_preimage"]
+            cl = [c for e in smp for c in e.ctrl if c[0] == "closure"]
+            if len(smp) == 1 and cl:
+                c_pre = (cl[0][3], None)
+        elif isinstance(pre_term, tuple) and pre_term and pre_term[0] == "call" and len(pre_term) == 5:
+            pe0 = [e for e in cv.effects if e.frame is cv.fr and e.result is not None and P.norm(e.result) == pre_term]
+            if len(pe0) == 1:
+                c_pre = (pe0[0].bb, pe0[0].raw)
+                pre_callee = prog.bodies.get(pe0[0].raw.get("rid") or pe0[0].raw.get("fid"))
+    ob.add({"C15"}, c_pre is not None, "INV", "commit/site/dummy preimages", "the witness fill's per-slot preimages come from one identifiable site in PrivateBatchProver::commit", b.loc(c_pre[0]) if c_pre else cv.loc0,
+           T.show(pre_term)[:200] if pre_term is not None else None)
     pushes = [e for e in cv.effects if e.raw.get("name") == "push" and P.norm(e.args[0]) == cv.param(2)]
     ob.add({"C15"}, len(pushes) == 1, "INV", "commit/site/padding", "exactly one padding push into the proof vector (found %d)" % len(pushes), pushes[0].loc if pushes else cv.loc0)
     if all(x is not None for x in (c_len, c_ver, c_compat, c_shuf, c_pre, c_fill)) and len(pushes) == 1:
@@ -267,13 +285,23 @@ def analyse(ck):
         ob.add({"C15"}, (se.path or "").startswith("rand::seq::SliceRandom") or "rand::seq" in (se.raw.get("f") or ""), "TERM", "commit/shuffle/impl", "shuffle is rand's SliceRandom::shuffle", se.loc, se.raw.get("f"))
         fe = [e for e in cv.effects if e.bb == c_fill[0] and e.frame is cv.fr][0]
         fa = [P.norm(a) for a in fe.args]
-        pe = [e for e in cv.effects if e.bb == c_pre[0] and e.frame is cv.fr][0]
-        ob.add({"C15", "C14"}, fa[2] == cv.param(2) and fa[3] == P.norm(pe.result) and P.norm(pe.args[0]) == ("len", cv.param(2)) and P.param_path(fa[0]) == "self.partial_witness",
+        if c_pre[1] is None:
+            cnt_ok = circ.range_expr(pre_term[1]) is not None and P.norm(circ.range_expr(pre_term[1])[1]) == ("len", cv.param(2))
+        else:
+            pe = [e for e in cv.effects if e.bb == c_pre[0] and e.frame is cv.fr][0]
+            cnt_ok = fa[3] == P.norm(pe.result) and P.norm(pe.args[0]) == ("len", cv.param(2))
+        ob.add({"C15", "C14"}, fa[2] == cv.param(2) and cnt_ok and P.param_path(fa[0]) == "self.partial_witness",
                "PROV", "commit/fill-operands", "the witness is filled with the padded+shuffled vector and one fresh preimage per slot (count = proofs.len())", fe.loc, [T.show(a)[:80] for a in fa])
-    # generator: one fresh preimage per slot, inside the map closure
-    gv = e2.MethodView(ck, "^" + PRIV.replace("::", "::") + "generate_dummy_nullifier_pre_images_for_slots$", AGG)
-    rt = P.norm(gv.fr.return_term())
-    okg = isinstance(rt, tuple) and rt[0] == "map" and circ.range_expr(rt[1]) is not None and P.const_of(circ.range_expr(rt[1])[0]) == 0 and P.norm(circ.range_expr(rt[1])[1]) == gv.param(1)
+    # generator: one fresh preimage per slot, inside the map closure (in commit itself after helper expansion, or in the callee that stayed a call)
+    if pre_callee is not None:
+        gv = e2.MethodView(ck, "^" + re.escape(pre_callee.path) + "$", AGG)
+        rt = P.norm(gv.fr.return_term())
+        want_end = gv.param(1)
+    else:
+        gv = cv
+        rt = pre_term
+        want_end = ("len", cv.param(2))
+    okg = isinstance(rt, tuple) and rt and rt[0] == "map" and circ.range_expr(rt[1]) is not None and P.const_of(circ.range_expr(rt[1])[0]) == 0 and P.norm(circ.range_expr(rt[1])[1]) == want_end
     inner = [e for e in gv.effects if e.raw.get("name") == "generate_random_nullifier_preimage"]
     okg = okg and len(inner) == 1 and [c for c in inner[0].ctrl if c[0] == "closure"] != []
     ob.add({"C15"}, okg, "TERM", "preimages/one-call-per-slot", "generate_random_nullifier_preimage is called inside the per-slot closure of (0..n_slots).map(..): every slot gets its own sample", gv.loc0, T.show(rt)[:200])
@@ -287,13 +315,13 @@ def analyse(ck):
     shufflers = sorted(e2.who_calls(prog, r"SliceRandom::shuffle$|::shuffle$"))
     ob.add({"C15"}, shufflers == [PRIV + "PrivateBatchProver::commit"], "WMC", "shuffle-only-private", "shuffle is called only by PrivateBatchProver::commit (the public batch keeps the given order)", None, shufflers)
     pc = e2.MethodView(ck, "^" + PUB.replace("::", "::") + "PublicBatchProver::commit$", AGG)
-    pp = [e for e in pc.effects if e.raw.get("name") == "push"]
-    okp = len(pp) == 1 and P.param_path(pp[0].args[1]) == "self.dummy_proof_template" and P.param_path(pp[0].args[0]) == "inputs.proofs"
-    muts = [e for e in pc.effects if e.raw.get("name") in T.MUTATORS and e.args and P.param_path(e.args[0]) == "inputs.proofs" and e.raw.get("name") != "push" and e.raw.get("trait") != "core::iter::traits::iterator::Iterator"]
-    ob.add({"C15"}, okp and not muts, "TERM", "public-commit/padding-appended", "public commit only appends dummy templates after the supplied inner proofs (no reordering)", pp[0].loc if pp else pc.loc0, [e.name for e in muts])
+    # padding = appending copies of the template (push loop, or extend(repeat_with(..).take(n))); nothing else touches the vector
+    pp, muts = pc.appended_copies(lambda r: P.param_path(r) == "inputs.proofs")
+    okp = len(pp) == 1 and P.param_path(pp[0]["value"]) == "self.dummy_proof_template"
+    ob.add({"C15"}, okp and not muts, "TERM", "public-commit/padding-appended", "public commit only appends dummy templates after the supplied inner proofs (no reordering)", pp[0]["eff"].loc if pp else pc.loc0, [e.name for e in muts])
     pre = pc.calls(lambda t: t.get("name") == "preflight_private_batch_proofs")
     fill = pc.calls(lambda t: t.get("name") == "fill_public_batch_witness")
-    okd = len(pre) == 1 and len(fill) == 1 and len(pp) == 1 and pc.call_ok_block(pre[0][0]) is not None and pc.dom(pc.call_ok_block(pre[0][0]), pp[0].bb) and cfg.reaches(pc.body, pp[0].bb, fill[0][0]) and pc.dom(pc.call_ok_block(pre[0][0]), fill[0][0])
+    okd = len(pre) == 1 and len(fill) == 1 and len(pp) == 1 and pc.call_ok_block(pre[0][0]) is not None and pc.dom(pc.call_ok_block(pre[0][0]), pp[0]["bb"]) and cfg.reaches(pc.body, pp[0]["bb"], fill[0][0]) and pc.dom(pc.call_ok_block(pre[0][0]), fill[0][0])
     ob.add({"C14"}, okd, "DOM", "public-commit/order", "preflight succeeds before padding, padding before the witness fill", pc.loc0)
     # preflight verifies every proof
     pf = e2.MethodView(ck, "^" + PUB.replace("::", "::") + "preflight_private_batch_proofs$", AGG)
@@ -301,10 +329,10 @@ def analyse(ck):
     okv = len(ve) == 1 and P.norm(circ.loops_of(ve[0])[0] if circ.loops_of(ve[0]) else None) == ("enumerate", pf.param(1)) and P.norm(ve[0].args[0]) == pf.param(3) and not circ.uncond_problems(ve[0])
     comp = pf.calls(lambda t: t.get("name") == "ensure_private_batch_compatible")
     ob.add({"C14"}, okv and len(comp) == 1, "UNCOND", "public-preflight/verify-every-proof", "every supplied inner proof is verified under the pinned private-batch verifier, then the compatibility check runs", ve[0].loc if ve else pf.loc0)
-    g_empty = [g for g in pf.gt if "is_empty" in T.show(g["cond"]) and g["fail_when"] is True and g["outcome"] <= {"err"}]
+    g_empty = [g for g in guards.rejects_empty(pf.gt, lambda c: c == pf.param(1)) if g["outcome"] <= {"err"}]
     g_many = pf.rejects("Gt", lambda t: P.norm(t) == ("len", pf.param(1)), lambda t: P.norm(t) == pf.param(2))
     ob.add({"C14"}, bool(g_empty) and bool(g_many), "CMP", "public-preflight/size-guards", "empty and oversized proof vectors are rejected", pf.loc0)
-    ge = [g for g in cv.gt if "is_empty" in T.show(g["cond"]) and g["fail_when"] is True and g["outcome"] <= {"err"}]
+    ge = [g for g in guards.rejects_empty(cv.gt, lambda c: c == cv.param(2)) if g["outcome"] <= {"err"}]
     gm = cv.rejects("Gt", lambda t: P.norm(t) == ("len", cv.param(2)), lambda t: P.param_path(t) == "self.num_leaf_proofs")
     ga = cv.rejects("Ne", lambda t: (P.call_name(t) or "").endswith("leaf_proof_asset_id"), lambda t: P.const_of(t) == 0)
     ob.add({"C14"}, bool(ge) and bool(gm) and bool(ga), "CMP", "commit/policy-guards", "private commit rejects empty, oversized, and (when padding is needed) non-zero-asset batches", cv.loc0)
